@@ -321,6 +321,25 @@ func Main(checks map[string]Check) {
 		c.findings = kf.Findings
 	}
 	code := 0
+	// Hard watchdog: a check that does not come back (a hang in the code under
+	// test that no per-case timeout caught, or a stuck tool) ends as an
+	// infrastructure failure instead of blocking its caller for ever.  A hang
+	// is never turned into a verdict here: engines that can attribute one to
+	// a replayed case report it themselves, with the replay.
+	limit := 90 * time.Minute
+	if *tier == "thorough" {
+		limit = 6 * time.Hour
+	}
+	if v, err := strconv.Atoi(os.Getenv("VERIF_WATCHDOG_MIN")); err == nil && v > 0 {
+		limit = time.Duration(v) * time.Minute
+	}
+	go func() {
+		time.Sleep(limit)
+		fmt.Fprintf(os.Stderr, "INFRASTRUCTURE FAILURE (%s): no result after %v (watchdog)\n", prop, limit)
+		fmt.Printf("RESULT property=%s tier=%s seed=%d violations=%d wall=%.1fs exit=2\n", prop, *tier, seed, c.Ev.Violations, time.Since(c.start).Seconds())
+		os.RemoveAll(scratch)
+		os.Exit(2)
+	}()
 	func() {
 		defer func() {
 			if r := recover(); r != nil {
